@@ -22,12 +22,12 @@ static _Bool stable_before(const E* x, const E* y) { return x->E_key < y->E_key 
 
 /* a0 = start of sequence i (arrays of LMAX + 1 elements), adv[i] = how far sequence i was consumed */
 E* c_mm(Seq* seqs, E* target, uint64_t size, uint32_t mwma, E* base, uint64_t* len, uint32_t gi, uint32_t gp, uint32_t gj)
-__CPROVER_requires(size <= TOTALMAX && gi < K && gp < LMAX && gj < TOTALMAX)
+__CPROVER_requires(size <= TOTALMAX && gi < K + (K == 0) && gp < LMAX && gj < TOTALMAX + (K == 0))
 __CPROVER_assigns(__CPROVER_object_whole(seqs), __CPROVER_object_whole(target), __CPROVER_object_whole(base), ir_live_allocs)
 /* returns the end of the written range */
 __CPROVER_ensures(__CPROVER_return_value == target + size)
 /* every input's begin only moves forward, stays inside its sequence; ends are untouched; together they moved by `size` */
-__CPROVER_ensures(seqs[gi].f0 >= base + gi * (LMAX + 1) && seqs[gi].f0 <= base + gi * (LMAX + 1) + len[gi] && seqs[gi].f1 == base + gi * (LMAX + 1) + len[gi])
+__CPROVER_ensures(K == 0 || (seqs[gi].f0 >= base + gi * (LMAX + 1) && seqs[gi].f0 <= base + gi * (LMAX + 1) + len[gi] && seqs[gi].f1 == base + gi * (LMAX + 1) + len[gi]))
 __CPROVER_ensures(ir_live_allocs == __CPROVER_old(ir_live_allocs))
 { return w_mm(seqs, K, target, size, mwma); }
 
@@ -65,7 +65,7 @@ void HARNESS(void)
     seqs[i].f0 = base + i * (LMAX + 1); seqs[i].f1 = seqs[i].f0 + in_len[i];
     total += in_len[i];
   }
-  __CPROVER_assume(in_size <= total && in_gi < K && in_gp < LMAX && in_gj < TOTALMAX && in_gj2 < TOTALMAX);
+  __CPROVER_assume(in_size <= total && in_gi < K + (K == 0) && in_gp < LMAX && in_gj < TOTALMAX + (K == 0) && in_gj2 < TOTALMAX + (K == 0));
 #ifdef FIX_MWMA      /* one job per algorithm value (assigned): the variants are separate code paths */
   in_mwma = FIX_MWMA;
 #endif
